@@ -64,7 +64,9 @@ CHECKS = {
             "(MC_LanSession); grammar-aware byte-level adversarial peer scripts at every phase on the real code, with TLC (Trace_Mon) "
             "judging the exception type of every call and that device-level operations do not raise",
             "Model check of the outcome alphabet; thousands of grammar-aware mutated V2/V3 peer messages at handshake-wait, read-wait and "
-            "queued phases through LAN.send, LAN.authenticate, Device.authenticate and AirConditioner.refresh, outcomes judged by TLC.", "3.2, 5 C09"),
+            "queued phases through LAN.send, LAN.authenticate, Device.authenticate and AirConditioner.refresh (V3 packets crafted under the real session key, "
+            "so that everything behind the tag check is reached), plus a frame-level adversary (well-formed frames of the wrong kind / type, broken frames) "
+            "against five device-level operations; outcomes judged by TLC.", "3.2, 5 C09"),
     "C10": ("TLA+ AcCommand.tla: TLC proves VendorDecode40 o SetStateBody = id on exhaustive per-field slices (MC_C10); "
             "TLC judges every 0x40 frame produced by the real apply() against the vendor layout (Trace_C10)",
             "Bounded-exhaustive model check of the layout plus TLC-judged frames from the real code for every field value, "
@@ -121,7 +123,8 @@ CHECKS = {
             "(MC_Cli); msmart.cli.main() is run in-process with crafted argv on the simulated V2/V3 network and TLC, parsing the "
             "command-line tokens itself, judges exit status, bytes sent, frames received by the appliance and its state before/after (Trace_Cli)",
             "In-model check of the catalogue; ~1.4k (quick) / ~25k (thorough) real CLI invocations over every setting x spelling, garbage "
-            "values, invalid names, all setting pairs and random multi-setting lines, judged by TLC.", "5 C20"),
+            "values, invalid names, all setting pairs and random multi-setting lines, judged by TLC. The same run carries the spec growth for the other "
+            "three commands (CliQuery / CliDiscover / CliDownload: conformance drift only, never a verdict).", "5 C20"),
 }
 
 
